@@ -548,6 +548,9 @@ func DocIsolation(p *core.Program, r *core.Report, rule string) {
 					continue
 				}
 				o := info.ObjectOf(id)
+				if o == nil {
+					continue // the blank identifier
+				}
 				if o.Pos() >= loop.Pos() && o.Pos() <= loop.End() {
 					continue // declared inside the loop
 				}
